@@ -65,7 +65,7 @@ def biased_spec(rng, thorough):
     return spec
 
 
-def check_one(ctx, spec, work, tag):
+def check_one(ctx, spec, work, tag, force=None):
     import zarr
     rng = ctx.rng
     n, s = len(spec["records"]), len(spec["samples"])
@@ -76,6 +76,8 @@ def check_one(ctx, spec, work, tag):
     scs = rng.choice([1, 2, max(1, s), s + 1, None])
     sep = rng.choice([None, "/", "."])
     parts = rng.choice([None, 1, 3, 8])
+    if force:
+        vcs, scs, sep = force["vcs"], force["scs"], force["sep"]
     # a chunk cap, binding or not (cap * chunk size may exceed the number of records)
     cap = rng.choice([None, None, 1, 2, 3, n + 2, 100]) if vcs is not None else None
     n_out = n if cap is None else min(n, cap * vcs)
@@ -129,6 +131,12 @@ def run(ctx):
             spec = biased_spec(ctx.rng, ctx.thorough)
             if spec["records"]:
                 check_one(ctx, spec, work, f"s{k}")
+        # many chunks along BOTH axes (multi-digit chunk indexes at every position of the key), both separators
+        for sep in ("/", "."):
+            spec = vcfgen.rich_file(ctx.rng, nrec=13, nsamples=12, ploidies=(2,), max_alt=2)
+            if len(spec["records"]) >= 11:
+                check_one(ctx, spec, work, f"many{'dot' if sep == '.' else 'slash'}", force={"vcs": 1, "scs": 1, "sep": sep})
+                ctx.count("many_chunks_cases")
         schema_correspondence(ctx, work)
     finally:
         shutil.rmtree(work, ignore_errors=True)
